@@ -1,18 +1,19 @@
 #!/bin/bash
 # tools/seedbatch.sh <root> : for every <root>/Cxx/out/{A,B}: confirm, then run all quick checks against it
 root=${1:-/tmp/seed}
-mkdir -p /tmp/seedout
+tools=$(cd "$(dirname "$0")" && pwd)
+mkdir -p ${SEEDOUT:-/tmp/seedout}
 for d in $root/C*/out/*/; do
   d=${d%/}
   [ -f $d/patch.diff ] || continue
   id=$(echo ${d#$root/} | sed 's#/out/#-#')
-  [ -f /tmp/seedout/$id.done ] && continue
-  /verif/tools/seedverify.py $d > /tmp/seedout/$id.verify.json 2>&1
-  if grep -q '"confirmed": true' /tmp/seedout/$id.verify.json; then
-    /verif/tools/seedrun.py $d/patch.diff --out /tmp/seedout/$id > /tmp/seedout/$id.run.txt 2>&1
-    echo "$id confirmed $(grep CAUGHT-BY /tmp/seedout/$id.run.txt)"
+  [ -f ${SEEDOUT:-/tmp/seedout}/$id.done ] && continue
+  $tools/seedverify.py $d > ${SEEDOUT:-/tmp/seedout}/$id.verify.json 2>&1
+  if grep -q '"confirmed": true' ${SEEDOUT:-/tmp/seedout}/$id.verify.json; then
+    $tools/seedrun.py $d/patch.diff --out ${SEEDOUT:-/tmp/seedout}/$id > ${SEEDOUT:-/tmp/seedout}/$id.run.txt 2>&1
+    echo "$id confirmed $(grep CAUGHT-BY ${SEEDOUT:-/tmp/seedout}/$id.run.txt)"
   else
     echo "$id NOT-CONFIRMED"
   fi
-  touch /tmp/seedout/$id.done
+  touch ${SEEDOUT:-/tmp/seedout}/$id.done
 done
